@@ -789,7 +789,7 @@ func call(mod api.Module, fn string, args []uint64) (string, []uint64) {
 	return "", res
 }
 
-func runOp(r *rand.Rand, o *opInfo, engines []engine, budget int) {
+func immsFor(r *rand.Rand, o *opInfo) [][]byte {
 	var imms [][]byte
 	switch o.immLen {
 	case 0:
@@ -819,6 +819,193 @@ func runOp(r *rand.Rand, o *opInfo, engines []engine, budget int) {
 			imms = append(imms, b)
 		}
 	}
+	return imms
+}
+
+func immString(imm []byte) string {
+	if imm == nil {
+		return "-"
+	}
+	var ss []string
+	for _, b := range imm {
+		ss = append(ss, fmt.Sprint(b))
+	}
+	return strings.Join(ss, ",")
+}
+
+func query(o *opInfo, immStr string, tup []v128) string {
+	var q strings.Builder
+	if o.params[0] == V128 || o.result == V128 {
+		fmt.Fprintf(&q, "c05 v %s %s", o.name, immStr)
+	} else {
+		fmt.Fprintf(&q, "c05 s %s", o.name)
+	}
+	for i, p := range o.params {
+		q.WriteString(" " + hexArg(p, tup[i]))
+	}
+	return q.String()
+}
+
+// runCombined: the "same function" placement.  All non-trapping instructions that share one parameter
+// signature are evaluated in ONE function on the same operands (each result is stored to its own 16-byte
+// slot), in several orders.  State that a back end keeps per function (constant pools, cached labels,
+// materialised masks, value numbering, register allocation across many live temporaries) is shared
+// between the instructions, which a one-instruction-per-function module can never exhibit.
+func runCombined(r *rand.Rand, ops []*opInfo, engines []engine, budget int) {
+	groups := map[string][]*opInfo{}
+	var keys []string
+	for _, o := range ops {
+		if strings.Contains(o.name, "div_") || strings.Contains(o.name, "rem_") || (strings.Contains(o.name, ".trunc_f") && !strings.Contains(o.name, "sat")) {
+			continue // may trap: a trap would hide the other results
+		}
+		k := string(o.params)
+		if _, ok := groups[k]; !ok {
+			keys = append(keys, k)
+		}
+		groups[k] = append(groups[k], o)
+	}
+	sort.Strings(keys)
+	const base = 4096
+	for _, k := range keys {
+		g := groups[k]
+		if len(g) < 2 {
+			continue
+		}
+		params := []byte(k)
+		imms := make([][]byte, len(g))
+		for i, o := range g {
+			c := immsFor(r, o)
+			imms[i] = c[len(c)/2]
+		}
+		norders := 4
+		if hx.Thorough() {
+			norders = 12
+		}
+		var orders [][]int
+		fwd := make([]int, len(g))
+		for i := range fwd {
+			fwd[i] = i
+		}
+		rev := make([]int, len(g))
+		for i := range rev {
+			rev[i] = len(g) - 1 - i
+		}
+		orders = append(orders, fwd, rev)
+		for len(orders) < norders {
+			p := r.Perm(len(g))
+			// random orders also drop a random half, so that which instruction comes first varies
+			if len(orders)%2 == 1 {
+				p = p[:1+len(p)/2]
+			}
+			orders = append(orders, p)
+		}
+		m := wb.New()
+		m.Memory(1, nil, false, "memory")
+		for oi, ord := range orders {
+			var b []byte
+			for _, gi := range ord {
+				o := g[gi]
+				b = append(b, wb.I32Const(int32(base+16*gi))...)
+				for i := range params {
+					b = append(b, wb.LocalGet(uint32(i))...)
+				}
+				b = append(b, opBody(o, imms[gi])...)
+				b = append(b, storeOf(o.result)...)
+			}
+			m.AddFunc(wb.Func{Params: params, Body: b, Export: fmt.Sprintf("all%d", oi)})
+		}
+		bin := m.Bytes()
+		mods := make([]api.Module, len(engines))
+		for i, e := range engines {
+			mod, err := e.rt.InstantiateWithConfig(ctx, bin, wazero.NewModuleConfig().WithName(""))
+			if err != nil {
+				rep.Violate(hx.Violation{Kind: "impl-violation", Signature: "C05:compile-fails:combined:" + e.name, What: "engine cannot compile a valid module evaluating several instructions in one function: " + err.Error(), Input: tnames(params)})
+				return
+			}
+			mods[i] = mod
+		}
+		ts := tuples(r, g[0], budget)
+		// tuples() is driven by the first instruction's lane shape; add the other shapes' tuples too
+		for _, o := range g[1:] {
+			if len(ts) > 40*budget/60+200 {
+				break
+			}
+			if o.name[:3] != g[0].name[:3] {
+				more := tuples(r, o, budget)
+				if len(more) > 24 {
+					more = more[:24]
+				}
+				ts = append(ts, more...)
+			}
+		}
+		step := 1 + len(ts)/(budget/2+10)
+		for ti := 0; ti < len(ts); ti += step {
+			tup := ts[ti]
+			wants := make([]string, len(g))
+			qs := make([]string, len(g))
+			for gi, o := range g {
+				qs[gi] = query(o, immString(imms[gi]), tup)
+				wants[gi] = orc.Ask(qs[gi])
+			}
+			for oi, ord := range orders {
+				fn := fmt.Sprintf("all%d", oi)
+				results := make([][][]uint64, len(engines))
+				for ei, e := range engines {
+					mods[ei].Memory().Write(base, make([]byte, 16*len(g)))
+					if s, _ := call(mods[ei], fn, flat(params, tup)); s != "" {
+						rep.Violate(hx.Violation{Kind: "impl-violation", Signature: "C05:combined-function-fails:" + e.name, What: fmt.Sprintf("function evaluating %d non-trapping instructions on %s failed: %s", len(ord), tnames(params), s), Input: fn})
+						continue
+					}
+					results[ei] = make([][]uint64, len(g))
+					for _, gi := range ord {
+						o := g[gi]
+						buf, _ := mods[ei].Memory().Read(uint32(base+16*gi), 16)
+						res := []uint64{binary.LittleEndian.Uint64(buf), binary.LittleEndian.Uint64(buf[8:])}
+						switch o.result {
+						case wb.I32, wb.F32:
+							res = []uint64{uint64(uint32(res[0]))}
+						case wb.I64, wb.F64:
+							res = res[:1]
+						}
+						results[ei][gi] = res
+						got := resString(o.result, res)
+						if wants[gi] != "unsupported" && !matches(wants[gi], o.result, got, res) {
+							rep.Violate(hx.Violation{Kind: "impl-violation", Signature: fmt.Sprintf("C05:wrong-result-in-shared-function:%s:%s", o.name, e.name),
+								What:  fmt.Sprintf("%s (imm %s) evaluated in one function together with %d other instructions (order %d) on %s: got %s, the specification requires %s", o.name, immString(imms[gi]), len(ord)-1, oi, e.name, got, wants[gi]),
+								Input: qs[gi], Expected: wants[gi], Actual: got})
+						}
+					}
+				}
+				if len(engines) == 2 && results[0] != nil && results[1] != nil {
+					for _, gi := range ord {
+						o := g[gi]
+						a, b := resString(o.result, results[0][gi]), resString(o.result, results[1][gi])
+						if !sameAcrossEngines(o.result, o.name, a, results[0][gi], b, results[1][gi]) {
+							rep.Violate(hx.Violation{Kind: "impl-violation", Signature: "C05:engines-differ-in-shared-function:" + o.name,
+								What: fmt.Sprintf("%s (imm %s) evaluated in one function with %d other instructions (order %d): %s=%s %s=%s", o.name, immString(imms[gi]), len(ord)-1, oi, engines[0].name, a, engines[1].name, b), Input: qs[gi]})
+						}
+					}
+				}
+				rep.Case(fmt.Sprintf("combined/%s/%d/%v", tnames(params), oi, tup))
+			}
+		}
+		rep.Count(fmt.Sprintf("combined-group:%s:%dops", tnames(params), len(g)))
+		for _, md := range mods {
+			md.Close(ctx)
+		}
+	}
+}
+
+func tnames(ps []byte) string {
+	var ss []string
+	for _, p := range ps {
+		ss = append(ss, tname(p))
+	}
+	return strings.Join(ss, ",")
+}
+
+func runOp(r *rand.Rand, o *opInfo, engines []engine, budget int) {
+	imms := immsFor(r, o)
 	unsupported := false
 	for _, imm := range imms {
 		ts := tuples(r, o, budget)
@@ -850,25 +1037,10 @@ func runOp(r *rand.Rand, o *opInfo, engines []engine, budget int) {
 			}
 			mods[i] = mod
 		}
-		immStr := "-"
-		if imm != nil {
-			var ss []string
-			for _, b := range imm {
-				ss = append(ss, fmt.Sprint(b))
-			}
-			immStr = strings.Join(ss, ",")
-		}
+		immStr := immString(imm)
 		check := func(place string, tup []v128, fn string, args []uint64, viaMem bool) {
-			var q strings.Builder
-			if o.params[0] == V128 || o.result == V128 {
-				fmt.Fprintf(&q, "c05 v %s %s", o.name, immStr)
-			} else {
-				fmt.Fprintf(&q, "c05 s %s", o.name)
-			}
-			for i, p := range o.params {
-				q.WriteString(" " + hexArg(p, tup[i]))
-			}
-			want := orc.Ask(q.String())
+			q := query(o, immStr, tup)
+			want := orc.Ask(q)
 			if want == "unsupported" {
 				unsupported = true
 			}
@@ -892,14 +1064,14 @@ func runOp(r *rand.Rand, o *opInfo, engines []engine, budget int) {
 				if want != "unsupported" && !matches(want, o.result, s, res) {
 					rep.Violate(hx.Violation{Kind: "impl-violation", Signature: fmt.Sprintf("C05:wrong-result:%s:%s", o.name, e.name),
 						What:  fmt.Sprintf("%s (%s operands, imm %s) on %s: got %s, the specification requires %s", o.name, place, immStr, e.name, s, want),
-						Input: q.String(), Expected: want, Actual: s})
+						Input: q, Expected: want, Actual: s})
 				}
 			}
 			if len(engines) == 2 && !sameAcrossEngines(o.result, o.name, outs[0], ress[0], outs[1], ress[1]) {
 				rep.Violate(hx.Violation{Kind: "impl-violation", Signature: "C05:engines-differ:" + o.name,
-					What: fmt.Sprintf("%s (%s operands, imm %s): %s=%s %s=%s", o.name, place, immStr, engines[0].name, outs[0], engines[1].name, outs[1]), Input: q.String()})
+					What: fmt.Sprintf("%s (%s operands, imm %s): %s=%s %s=%s", o.name, place, immStr, engines[0].name, outs[0], engines[1].name, outs[1]), Input: q})
 			}
-			rep.Case(o.name + "/" + place + "/" + q.String())
+			rep.Case(o.name + "/" + place + "/" + q)
 		}
 		for k, tup := range ts {
 			check("param", tup, "p", flat(o.params, tup), false)
@@ -957,13 +1129,16 @@ func main() {
 		budget = 5000
 	}
 	n := 0
+	var sel []*opInfo
 	for _, o := range ops {
 		if *only != "" && !strings.Contains(o.name, *only) {
 			continue
 		}
 		runOp(r, o, engines, budget)
+		sel = append(sel, o)
 		n++
 	}
+	runCombined(r, sel, engines, budget)
 	rep.Count(fmt.Sprintf("opcodes:%d", n))
 	rep.Sample(map[string]any{"op": "i32.div_s", "query": "c05 s i32.div_s 80000000 ffffffff", "spec": "trap:overflow"})
 	rep.Write(orc)
